@@ -108,7 +108,19 @@ fn main() {
                     assert!(m.is_empty()); }
             13 => { let mut it = m.iter(); assert_eq!(it.len(), before.len()); assert_eq!(it.size_hint(), (before.len(), Some(before.len())));
                     if let Some((a, b)) = it.next() { assert_eq!((*a, *b), before[0]); }
-                    if before.len() > 1 { let (a, b) = it.next_back().unwrap(); assert_eq!((*a, *b), *before.last().unwrap()); } }
+                    if before.len() > 1 { let (a, b) = it.next_back().unwrap(); assert_eq!((*a, *b), *before.last().unwrap()); }
+                    // nth / nth_back / count / last of the three iterator kinds, as the stub states them
+                    let n = before.len(); let k = rng.below(n as u64 + 2) as usize;
+                    let back = |k: usize| if k < n { Some(before[n - 1 - k]) } else { None };
+                    { let mut it = m.iter(); assert_eq!(it.nth(k).map(|(a, b)| (*a, *b)), before.get(k).copied()); assert_eq!(it.len(), n.saturating_sub(k + 1)); if let Some((a, b)) = it.next() { assert_eq!((*a, *b), before[k + 1]); } }
+                    { let mut it = m.iter(); assert_eq!(it.nth_back(k).map(|(a, b)| (*a, *b)), back(k)); assert_eq!(it.len(), n.saturating_sub(k + 1)); if let Some((a, b)) = it.next_back() { assert_eq!((*a, *b), before[n - 2 - k]); } }
+                    assert_eq!(m.iter().count(), n); assert_eq!(m.iter().last().map(|(a, b)| (*a, *b)), before.last().copied());
+                    { let mut it = m.clone().into_iter(); assert_eq!(it.nth(k), before.get(k).copied()); assert_eq!(it.len(), n.saturating_sub(k + 1)); }
+                    { let mut it = m.clone().into_iter(); assert_eq!(it.nth_back(k), back(k)); assert_eq!(it.len(), n.saturating_sub(k + 1)); }
+                    assert_eq!(m.clone().into_iter().count(), n); assert_eq!(m.clone().into_iter().last(), before.last().copied());
+                    { let mut c = m.clone(); let mut d = c.drain(..); assert_eq!(d.nth(k), before.get(k).copied()); assert_eq!(d.len(), n.saturating_sub(k + 1)); drop(d); assert!(c.is_empty()); }
+                    { let mut c = m.clone(); let mut d = c.drain(..); assert_eq!(d.nth_back(k), back(k)); assert_eq!(d.len(), n.saturating_sub(k + 1)); }
+                    { let mut c = m.clone(); assert_eq!(c.drain(..).count(), n); let mut c2 = m.clone(); assert_eq!(c2.drain(..).last(), before.last().copied()); } }
             14 => { // order-insensitive equality
                     let mut other: M = IndexMap::with_capacity_and_hasher(0, RandomState::new());
                     for e in before.iter().rev() { other.insert(e.0, e.1); }
